@@ -9,20 +9,25 @@
 (* replaced by another object's bytes).  NonCanon \subseteq Oids are       *)
 (* objects whose pointer is committed in a parseable but non-canonical     *)
 (* spelling; "raw" is ordinary content committed at a tracked path.        *)
+(* excl is the set of paths lfs.fetchexclude names: git-lfs-fsck(1) says   *)
+(* files at such paths "will not be checked for consistency"; an object    *)
+(* that also belongs to a file at another path is checked for that file.   *)
 (***************************************************************************)
 EXTENDS Repo
 
-CONSTANTS NonCanon, FsckFlags, Damages
+CONSTANTS NonCanon, FsckFlags, Damages,
+          Excludes      \* the sets of paths lfs.fetchexclude may name (fixed per behaviour)
 
 VARIABLES bad,      \* oids moved aside to lfs/bad
           fstaged,  \* path -> object staged but not committed ("same": index equals HEAD)
-          fdone
-fvars == <<rvars, bad, fstaged, fdone, steps, hist>>
-FView == <<rvars, bad, fstaged, fdone>>
+          fdone,
+          excl      \* paths named by lfs.fetchexclude
+fvars == <<rvars, bad, fstaged, fdone, excl, steps, hist>>
+FView == <<rvars, bad, fstaged, fdone, excl>>
 
-FInit == RepoInit /\ bad = {} /\ fstaged = [p \in Paths |-> "same"] /\ fdone = FALSE
+FInit == RepoInit /\ bad = {} /\ fstaged = [p \in Paths |-> "same"] /\ fdone = FALSE /\ excl \in Excludes
 
-Keep == ~fdone /\ UNCHANGED <<bad, fdone>>
+Keep == ~fdone /\ UNCHANGED <<bad, fdone, excl>>
 FClean == \A p \in Paths : fstaged[p] = "same"
 FCommit(b, p, blob, g) == Keep /\ FClean /\ UNCHANGED fstaged /\ (blob \in Oids => local[blob] \in {"absent", "valid"}) /\ Commit(b, p, blob, g)
 FMerge(b, o)           == Keep /\ FClean /\ UNCHANGED fstaged /\ Merge(b, o)
@@ -47,8 +52,10 @@ OnlyPar(c) == CHOOSE q \in commits[c].par : TRUE
 Excluded(scope) == IF scope = "tip" THEN OnlyPar(HeadCommit) ELSE OnlyPar(OnlyPar(HeadCommit))
 HasChain(scope) == /\ HeadCommit # NoCommit /\ Cardinality(commits[HeadCommit].par) = 1
                    /\ (scope = "tip2" => Cardinality(commits[OnlyPar(HeadCommit)].par) = 1)
+\* objects of the files of HEAD's tree and of the index at the paths P
+HeadOidsAt(P) == ({TreeOf(HeadCommit)[p] : p \in P} \cup {fstaged[p] : p \in P}) \cap Oids
 InScope(scope) ==
-  IF scope = "head" THEN PtrOids({HeadCommit}, commits) \cup ({fstaged[p] : p \in Paths} \cap Oids)   \* HEAD's tree and the index
+  IF scope = "head" THEN HeadOidsAt(Paths \ excl)       \* HEAD's tree and the index, without the excluded paths
   ELSE \* a range checks what its commits introduced  (fsck <excluded>..HEAD); the index is not looked at
        LET c == HeadCommit
            x == Excluded(scope) IN
@@ -57,26 +64,32 @@ InScope(scope) ==
 \* much of the excluded side's history it looks at is Git's business (only the boundary commit's tree
 \* is certain).  So objects of the range's commits that also occur further back in the excluded history
 \* MAY be in scope: damage to them may or may not be reported (and repaired).
-MayScope(scope) == IF scope = "head" THEN InScope(scope)
+MayScope(scope) == IF scope = "head" THEN HeadOidsAt(Paths)    \* whether a file at an excluded path is looked at all the same is left open
                    ELSE PtrOids(Anc(HeadCommit, commits) \ Anc(Excluded(scope), commits), commits) \ PtrOids({Excluded(scope)}, commits)
 BadObjects(scope)  == {o \in InScope(scope) : local[o] # "valid"}
 MayBadObjects(scope) == {o \in MayScope(scope) : local[o] # "valid"} \ BadObjects(scope)
-BadPointers == {p \in Paths : TreeOf(HeadCommit)[p] = "raw" \/ TreeOf(HeadCommit)[p] \in NonCanon}
+BadPointersAt(P) == {p \in P : TreeOf(HeadCommit)[p] = "raw" \/ TreeOf(HeadCommit)[p] \in NonCanon}
+BadPointers == BadPointersAt(Paths \ excl)
 
 Fsck(flag, scope) ==
   /\ ~fdone /\ HeadCommit # NoCommit /\ flag \in FsckFlags /\ scope \in {"head", "tip", "tip2"}
-  /\ (scope # "head" => HasChain(scope) /\ flag = "objects")
+  /\ (scope # "head" => HasChain(scope) /\ flag = "objects" /\ excl = {})
   /\ LET chkObj == flag \in {"none", "objects", "dry-run"}
          chkPtr == flag \in {"none", "pointers", "dry-run"}
          bo == IF chkObj THEN BadObjects(scope) ELSE {}
          bp == IF chkPtr THEN BadPointers ELSE {}
+         mbp == IF chkPtr THEN BadPointersAt(excl) ELSE {}
          mb == IF chkObj THEN MayBadObjects(scope) ELSE {}
          moved == IF flag = "dry-run" THEN {} ELSE {o \in bo : local[o] = "corrupt"}
          mayMove == IF flag = "dry-run" THEN {} ELSE {o \in mb : local[o] = "corrupt"}
      IN /\ local' = [o \in Oids |-> IF o \in moved THEN "absent" ELSE local[o]]
         /\ bad' = bad \cup moved
-        /\ fdone' = TRUE
-        /\ Log([a |-> "fsck", flag |-> flag, scope |-> scope, ok |-> (bo = {} /\ bp = {}),
+        /\ fdone' = TRUE /\ excl' = excl
+        /\ Log([a |-> "fsck", flag |-> flag, scope |-> scope, excl |-> excl, mayBadPointers |-> mbp,
+                \* shared: checked for one file although another file of theirs is excluded; sharedTree: both files in HEAD's tree
+                shared |-> (IF scope = "head" THEN HeadOidsAt(Paths \ excl) \cap HeadOidsAt(excl) ELSE {}),
+                sharedTree |-> (IF scope = "head" THEN {TreeOf(HeadCommit)[p] : p \in Paths \ excl} \cap {TreeOf(HeadCommit)[p] : p \in excl} \cap Oids ELSE {}),
+                ok |-> (bo = {} /\ bp = {}),
                 badObjects |-> bo, missing |-> {o \in bo : local[o] = "absent"}, corrupt |-> {o \in bo : local[o] = "corrupt"},
                 badPointers |-> bp, moved |-> moved, intact |-> LocalValid, mayReport |-> mb, mayMove |-> mayMove])
   /\ UNCHANGED <<commits, br, rr, rt, head, server, everRemote, fstaged>>
